@@ -272,6 +272,41 @@ func (eng *Engine) initExterns() {
 		k(st, x.eng.strHasPrefix(x, args[0].(Term), args[1].(Term)))
 	}
 
+	// ---- JSON (sonic): uninterpreted encoding of the marshalled value ----
+	const jsonNote = "sonic.Marshal/Unmarshal: uninterpreted enc/dec functions of the value's identity; dec(enc(x)) == x is NOT assumed (hypothesis H.json-roundtrip is stated where it is used)"
+	E["sonic.Marshal"] = func(x *Exec, st *State, cc *ssa.CallCommon, fn *ssa.Function, args []Val, resT types.Type, k func(*State, Val)) {
+		tb(x, jsonNote)
+		k(st, &TupleVal{[]Val{UF(SI, "json.enc", args[0].(Term)), st.fresh("json.err", SI)}})
+	}
+	// ---- environment / parsing: deterministic uninterpreted functions of their input ----
+	const envNote = "os.Getenv, strconv.Atoi/ParseBool, time.ParseDuration: uninterpreted functions of the input string (same input, same result)"
+	E["os.Getenv"] = func(x *Exec, st *State, cc *ssa.CallCommon, fn *ssa.Function, args []Val, resT types.Type, k func(*State, Val)) {
+		tb(x, envNote)
+		k(st, UF(SI, "os.env", args[0].(Term)))
+	}
+	parse2 := func(name string) externFn {
+		return func(x *Exec, st *State, cc *ssa.CallCommon, fn *ssa.Function, args []Val, resT types.Type, k func(*State, Val)) {
+			tb(x, envNote)
+			tup := resT.(*types.Tuple)
+			var v Term
+			if sortOf(tup.At(0).Type()) == SB {
+				v = UF(SB, name+".val", args[0].(Term))
+			} else {
+				v = UF(SI, name+".val", args[0].(Term))
+				st.assume(st.typeConstraint(v, tup.At(0).Type()))
+			}
+			k(st, &TupleVal{[]Val{v, UF(SI, name+".err", args[0].(Term))}})
+		}
+	}
+	E["strconv.Atoi"] = parse2("atoi")
+	E["strconv.ParseBool"] = parse2("parsebool")
+	E["time.ParseDuration"] = parse2("parseduration")
+	E["uuid.New"] = func(x *Exec, st *State, cc *ssa.CallCommon, fn *ssa.Function, args []Val, resT types.Type, k func(*State, Val)) {
+		k(st, st.fresh("uuid", SI)) // an opaque identifier (the array value is not modelled)
+	}
+	E["uuid.(UUID).String"] = func(x *Exec, st *State, cc *ssa.CallCommon, fn *ssa.Function, args []Val, resT types.Type, k func(*State, Val)) {
+		k(st, UF(SI, "uuid.string", st.scalar(args[0], nil)))
+	}
 	// ---- time ----
 	const timeNote = "time.*: time values are unconstrained; Sleep returns; timers are ghost objects (AfterFunc/Stop/Reset logged)"
 	E["time.Sleep"] = func(x *Exec, st *State, cc *ssa.CallCommon, fn *ssa.Function, args []Val, resT types.Type, k func(*State, Val)) {
